@@ -34,12 +34,13 @@ def on_grid(x):
 # ------------------------------------------------------------------------------------------------
 # generator
 class Builder:
-    def __init__(self, rng, with_rf=False, with_adc=False, max_blocks=8):
+    def __init__(self, rng, with_rf=False, with_adc=False, max_blocks=8, reread=False):
         import pypulseq as pp
         self.pp = pp
         self.rng = rng
         r = rng
-        self.raster = r.choice([10e-6, 10e-6, 20e-6])
+        self.reread = reread
+        self.raster = r.choice([10e-6, 10e-6, 20e-6]) if not reread else r.choice([20e-6, 20e-6, 10e-6])
         self.rk = int(round(self.raster * 1e6))          # raster in us
         self.system = pp.Opts(grad_raster_time=self.raster, block_duration_raster=self.raster,
                               max_grad=r.choice([40, 80]), grad_unit='mT/m',
@@ -120,6 +121,14 @@ class Builder:
         while abs(w[-1] - last_v) > half or len(w) < 2:
             d = max(-self.step, min(self.step, last_v - w[-1]))
             w.append(w[-1] + d)
+        if self.reread or r.random() < 0.3:
+            # the file format does not store `last`: a reader restores it by linear extrapolation of the last two
+            # samples; end the walk with  last + 3d, last + d  so that the extrapolation IS `last` while the last
+            # sample differs from it
+            d = r.choice([-1, 1]) * r.randint(1, max(1, min(half // 3, 12)))
+            while abs(w[-1] - (last_v + 3 * d)) > self.step:
+                w.append(w[-1] + max(-self.step, min(self.step, last_v + 3 * d - w[-1])))
+            w += [last_v + 3 * d, last_v + d]
         return {'k': 'arb', 'delay': delay, 'w': w, 'first': first, 'last': last_v}
 
     def g_end(self, g):
@@ -142,6 +151,67 @@ class Builder:
         elif g['k'] == 'arb':
             while g['delay'] + len(g['w']) < end:
                 g['w'].append(g['last'])
+
+    def block_end(self, blk):
+        """duration of a described block in gradient rasters"""
+        ends = [self.g_end(g) for g in blk['g'].values()]
+        if blk['rf']:
+            ends.append(math.ceil((blk['rf']['delay'] + blk['rf']['dur']) / self.rk))
+        if blk['adc']:
+            ends.append(math.ceil((blk['adc']['delay'] + blk['adc']['n'] * blk['adc']['dwell'] / 10) / self.rk))
+        if blk['delay']:
+            ends.append(blk['delay'])
+        return max(ends) if ends else 0
+
+    def g_first(self, g):
+        if g['k'] == 'trap':
+            return 0
+        return g['vals'][0] if g['k'] == 'ext' else g['first']
+
+    def gen_history(self):
+        """operations applied to the sequence object AFTER it has been exported once: set_block replacing an existing
+        block by edge-consistent content of ANOTHER duration (the same events plus a longer delay where every gradient
+        of the block ends at zero; a pure delay or a fresh zero-to-zero block where the block's gradients also start
+        at zero), and add_block of new final blocks.  Call after generate()."""
+        import copy
+        r = self.rng
+        blocks = [copy.deepcopy(b) for b in self.desc]
+        ops = []
+        for _ in range(r.choice([1, 1, 2, 2, 3])):
+            kind = r.choice(['longer', 'longer', 'replace', 'delay', 'add'])
+            ends0 = [i for i, b in enumerate(blocks) if all(self.g_last(g) == 0 for g in b['g'].values())]
+            both0 = [i for i in ends0 if all(self.g_first(g) == 0 for g in blocks[i]['g'].values())]
+            if kind == 'longer' and ends0:
+                i = r.choice(ends0)
+                nb = copy.deepcopy(blocks[i])
+                nb['delay'] = self.block_end(nb) + r.choice([1, 2, 5, 13, 40])
+                ops.append({'op': 'set', 'index': i, 'block': nb})
+                blocks[i] = nb
+            elif kind == 'delay' and both0:
+                i = r.choice(both0)
+                old = self.block_end(blocks[i])
+                d = r.choice([x for x in (1, 2, 3, 7, 20, 55, old + 4) if x != old])
+                nb = {'g': {}, 'rf': None, 'adc': None, 'delay': d}
+                ops.append({'op': 'set', 'index': i, 'block': nb})
+                blocks[i] = nb
+            elif kind == 'replace' and both0:
+                i = r.choice(both0)
+                old = self.block_end(blocks[i])
+                saved = dict(self.last)
+                self.last = {'x': 0, 'y': 0, 'z': 0}
+                nb = self.gen_block(final=True)
+                self.last = saved
+                if self.block_end(nb) == old:
+                    nb['delay'] = old + r.choice([1, 3, 9])
+                ops.append({'op': 'set', 'index': i, 'block': nb})
+                blocks[i] = nb
+            else:
+                if any(v != 0 for v in self.last.values()):
+                    continue
+                nb = self.gen_block(final=True)
+                ops.append({'op': 'add', 'block': nb})
+                blocks.append(nb)
+        return ops
 
     def gen_block(self, final):
         r = self.rng
@@ -166,27 +236,37 @@ class Builder:
                 blk['g'][ch] = self.gen_ext(f, lv) if k == 'ext' else self.gen_arb(f, lv)
             if self.with_rf and r.random() < 0.45:
                 use = r.choice(RF_USES + ['excitation', 'refocusing'])
-                shape = r.choice(['block', 'sinc', 'sinc'])
+                shape = r.choice(['block', 'sinc', 'sinc', 'lobes'])
                 blk['rf'] = {'shape': shape, 'use': use, 'dur': r.randint(2, 25) * 10, 'delay': r.choice([0, 0, 10, 35]),
                              'tbw': r.choice([2, 4]), 'center_pos': r.choice([0.5, 0.5, 0.25, 0.7]),
                              'flip': r.choice([0.3, 1.5707963267948966, 3.141592653589793])}
+                if shape == 'lobes':
+                    # composite pulse: 2-3 lobes of EQUAL peak amplitude and different length (in RF rasters),
+                    # separated by lower stretches: the maximum is reached on an unevenly distributed sample set
+                    nl = r.choice([2, 2, 3])
+                    lens = r.sample([3, 5, 8, 12, 20, 31, 47], nl)
+                    segs = []
+                    if r.random() < 0.5:
+                        segs.append([r.randint(1, 10), r.choice([0.0, 0.2, 0.5])])
+                    for i, n in enumerate(lens):
+                        segs.append([n, 1.0])
+                        if i < nl - 1 or r.random() < 0.5:
+                            segs.append([r.randint(1, 25), r.choice([0.0, 0.3, 0.6, 0.9999])])
+                    blk['rf']['segs'] = segs
+                    total = sum(n for n, _ in segs)
+                    pad = (-total) % 10
+                    if pad:
+                        segs.append([pad, 0.0])
+                    blk['rf']['dur'] = sum(n for n, _ in segs)
             elif self.with_adc and r.random() < 0.6:
                 blk['adc'] = {'n': r.randint(1, 16), 'dwell': r.choice([10, 25, 50, 100, 237]),   # units of 100 ns
                               'delay': r.choice([0, 0, 5, 13, 40])}                               # us
             if r.random() < 0.15:
                 blk['delay'] = r.randint(1, 60)
         # block end in rasters
-        ends = [self.g_end(g) for g in blk['g'].values()]
-        if blk['rf']:
-            ends.append(math.ceil((blk['rf']['delay'] + blk['rf']['dur']) / self.rk))
-        if blk['adc']:
-            ends.append(math.ceil((blk['adc']['delay'] + blk['adc']['n'] * blk['adc']['dwell'] / 10) / self.rk))
-        if blk['delay']:
-            ends.append(blk['delay'])
-        if not ends:
+        if self.block_end(blk) == 0:
             blk['delay'] = r.randint(1, 20)
-            ends = [blk['delay']]
-        end = max(ends)
+        end = self.block_end(blk)
         for ch, g in blk['g'].items():
             if self.g_last(g) != 0:
                 self.extend(g, end)
@@ -196,48 +276,82 @@ class Builder:
 
     def generate(self):
         self.desc = [self.gen_block(final=(i == self.n_blocks - 1)) for i in range(self.n_blocks)]
-        return {'raster_us': self.rk, 'max_grad': self.system.max_grad, 'max_slew': self.system.max_slew,
+        case = {'raster_us': self.rk, 'max_grad': self.system.max_grad, 'max_slew': self.system.max_slew,
                 'blocks': self.desc}
+        if self.reread:
+            # written with this raster, read into a Sequence() whose SYSTEM has another gradient raster
+            case['reread_raster_us'] = 10 if self.rk == 20 else self.rng.choice([20, 5])
+        return case
+
+
+def make_system(case):
+    import pypulseq as pp
+    raster = case['raster_us'] * 1e-6
+    return pp.Opts(grad_raster_time=raster, block_duration_raster=raster,
+                   max_grad=case['max_grad'], max_slew=case['max_slew'])   # already in Hz/m, Hz/m/s
+
+
+def block_events(blk, system, raster):
+    """the pypulseq events of one described block"""
+    import pypulseq as pp
+    evs = []
+    for ch, g in blk['g'].items():
+        if g['k'] == 'trap':
+            evs.append(pp.make_trapezoid(ch, amplitude=g['amp'] * U, rise_time=g['rise'] * raster,
+                                         flat_time=g['flat'] * raster, fall_time=g['fall'] * raster,
+                                         delay=g['delay'] * raster, system=system))
+        elif g['k'] == 'ext':
+            evs.append(pp.make_extended_trapezoid(ch, amplitudes=np.array([v * U for v in g['vals']], dtype=float),
+                                                  times=np.array([(g['delay'] + t) * raster for t in g['tt']]),
+                                                  system=system))
+        else:
+            evs.append(pp.make_arbitrary_grad(ch, np.array([v * U for v in g['w']], dtype=float),
+                                              first=g['first'] * U, last=g['last'] * U,
+                                              delay=g['delay'] * raster, system=system))
+    if blk['rf']:
+        q = blk['rf']
+        kw = dict(delay=q['delay'] * 1e-6, system=system)
+        if q['use'] is not None:
+            kw['use'] = q['use']
+        if q['shape'] == 'block':
+            evs.append(pp.make_block_pulse(q['flip'], duration=q['dur'] * 1e-6, **kw))
+        elif q['shape'] == 'lobes':
+            sig = np.concatenate([np.full(int(n), float(v)) for n, v in q['segs']])
+            evs.append(pp.make_arbitrary_rf(sig, q['flip'], **kw))
+        else:
+            evs.append(pp.make_sinc_pulse(q['flip'], duration=q['dur'] * 1e-6, time_bw_product=q['tbw'],
+                                          center_pos=q['center_pos'], **kw))
+    if blk['adc']:
+        q = blk['adc']
+        evs.append(pp.make_adc(q['n'], dwell=q['dwell'] * 1e-7, delay=q['delay'] * 1e-6, system=system))
+    if blk['delay']:
+        evs.append(pp.make_delay(blk['delay'] * raster))
+    return evs
 
 
 def build_sequence(case):
     """case (as returned by Builder.generate) -> pp.Sequence"""
     import pypulseq as pp
     raster = case['raster_us'] * 1e-6
-    system = pp.Opts(grad_raster_time=raster, block_duration_raster=raster,
-                     max_grad=case['max_grad'], max_slew=case['max_slew'])   # already in Hz/m, Hz/m/s
+    system = make_system(case)
     seq = pp.Sequence(system)
     for blk in case['blocks']:
-        evs = []
-        for ch, g in blk['g'].items():
-            if g['k'] == 'trap':
-                evs.append(pp.make_trapezoid(ch, amplitude=g['amp'] * U, rise_time=g['rise'] * raster,
-                                             flat_time=g['flat'] * raster, fall_time=g['fall'] * raster,
-                                             delay=g['delay'] * raster, system=system))
-            elif g['k'] == 'ext':
-                evs.append(pp.make_extended_trapezoid(ch, amplitudes=np.array([v * U for v in g['vals']], dtype=float),
-                                                      times=np.array([(g['delay'] + t) * raster for t in g['tt']]),
-                                                      system=system))
-            else:
-                evs.append(pp.make_arbitrary_grad(ch, np.array([v * U for v in g['w']], dtype=float),
-                                                  first=g['first'] * U, last=g['last'] * U,
-                                                  delay=g['delay'] * raster, system=system))
-        if blk['rf']:
-            q = blk['rf']
-            kw = dict(duration=q['dur'] * 1e-6, delay=q['delay'] * 1e-6, system=system)
-            if q['use'] is not None:
-                kw['use'] = q['use']
-            if q['shape'] == 'block':
-                evs.append(pp.make_block_pulse(q['flip'], **kw))
-            else:
-                evs.append(pp.make_sinc_pulse(q['flip'], time_bw_product=q['tbw'], center_pos=q['center_pos'], **kw))
-        if blk['adc']:
-            q = blk['adc']
-            evs.append(pp.make_adc(q['n'], dwell=q['dwell'] * 1e-7, delay=q['delay'] * 1e-6, system=system))
-        if blk['delay']:
-            evs.append(pp.make_delay(blk['delay'] * raster))
-        seq.add_block(*evs)
+        seq.add_block(*block_events(blk, system, raster))
     return seq
+
+
+def reread_sequence(seq, case):
+    """write the sequence and read it into a Sequence() built on a system with ANOTHER gradient raster"""
+    import os
+    import tempfile
+    import pypulseq as pp
+    other = pp.Opts(grad_raster_time=case['reread_raster_us'] * 1e-6, max_grad=case['max_grad'], max_slew=case['max_slew'])
+    with tempfile.TemporaryDirectory(prefix='pvC08') as d:
+        fn = os.path.join(d, 'a.seq')
+        seq.write(fn, create_signature=False)
+        s2 = pp.Sequence(other)
+        s2.read(fn)
+    return s2
 
 
 # ------------------------------------------------------------------------------------------------
@@ -307,7 +421,10 @@ class Held:
                 rf = e['rf']
                 u = rf['use']
                 utok = '0' if u is None else '1 %d %s' % (len(u.encode()), ' '.join('%x' % c for c in u.encode()))
-                s += ' 1 %s %s %s %s' % (qtok(rf['delay']), qlist(rf['t']), qlist(rf['mag']), utok)
+                # magnitudes scaled by one common power of two to integers (exact; calc_rf_center only compares
+                # them with 0.99999 * their maximum, which is scale invariant) - keeps the extracted arithmetic cheap
+                den = max([v.denominator for v in rf['mag']] + [1])
+                s += ' 1 %s %s %s %s' % (qtok(rf['delay']), qlist(rf['t']), qlist([v * den for v in rf['mag']]), utok)
             if e['adc'] is None:
                 s += ' 0'
             else:
@@ -374,6 +491,7 @@ class Rendering:
             if g is not None:
                 self.items.append((e['start'], e['start'] + e['dur'], g))
         self.starts = [it[0] for it in self.items]
+        self.cors = [event_corners(g, held.raster) for (_, _, g) in self.items]   # cached corner lists
 
     def active_values(self, t):
         out = []
@@ -381,7 +499,9 @@ class Rendering:
         for j in (i - 2, i - 1, i):
             if 0 <= j < len(self.items):
                 st, en, g = self.items[j]
-                v = event_value(g, self.h.raster, t - st)     # active = inside the event's own support
+                # active = inside the event's own support
+                v = event_value(g, self.h.raster, t - st) if g['k'] == 'trap' else \
+                    interp_corners(self.cors[j][0], self.cors[j][1], t - st)
                 if v is not None:
                     out.append(v)
         return out
@@ -405,6 +525,34 @@ class Rendering:
             else:
                 worst = max(worst, abs(vs0[-1]), abs(vs1[0]))
         return worst
+
+    def junctions(self):
+        """[(interval start, interval end, disagreement)] for every pair of consecutive events: the stretch between
+        the last inner corner of the earlier and the first inner corner of the later event, and how much the two
+        events disagree where they meet (or differ from zero where they do not meet)"""
+        if hasattr(self, '_junc'):
+            return self._junc
+        out = []
+        for (s0, e0, g0), (s1, e1, g1) in zip(self.items[:-1], self.items[1:]):
+            ts0, vs0 = event_corners(g0, self.h.raster)
+            ts1, vs1 = event_corners(g1, self.h.raster)
+            if s0 + ts0[-1] == s1 + ts1[0]:
+                m = abs(vs0[-1] - vs1[0])
+            else:
+                m = max(abs(vs0[-1]), abs(vs1[0]))
+            lo = s0 + (ts0[-2] if len(ts0) > 1 else ts0[-1])
+            hi = s1 + (ts1[1] if len(ts1) > 1 else ts1[0])
+            out.append((lo, hi, m))
+        self._junc = out
+        return out
+
+    def slack_at(self, t):
+        """the measured disagreement of the events meeting next to t (0 away from junctions)"""
+        w = Fraction(0)
+        for lo, hi, m in self.junctions():
+            if lo <= t <= hi and m > w:
+                w = m
+        return w
 
     def max_abs(self):
         m = Fraction(0)
